@@ -189,7 +189,7 @@ def gen_invocation(rng: random.Random, files_now: list[str]) -> dict[str, Any]:
         elif kind == "inplace_nobackup":
             api["inplace"], api["nobackup"] = True, True
         elif kind == "err_output_multi":
-            api["output"] = "never.md"
+            api["output"] = rng.choice(["never.md", "newdir3/never.md"])
         elif kind == "stdin_single_output":
             api["files"], api["output"] = ["-"], "api_files_out.md"
             inv["stdin"] = b2j(stdin_doc)
@@ -201,9 +201,9 @@ def gen_invocation(rng: random.Random, files_now: list[str]) -> dict[str, Any]:
     elif form == "err_listfiles_noargs":
         inv["argv"] = ["--list-files"]
     elif form == "err_o_multi":
-        inv["argv"] = place(["-o", "never.md"], several if len(several) > 1 else several + several)
+        inv["argv"] = place(["-o", rng.choice(["never.md", "newdir/never.md", "x/y/never.md"])], several if len(several) > 1 else several + several)
     elif form == "err_inplace_stdin":
-        inv["argv"] = place(["-i"] + (["--nobackup"] if rng.random() < 0.5 else []), ["-"])
+        inv["argv"] = place(["-i"] + (["--nobackup"] if rng.random() < 0.5 else []) + (["-o", rng.choice(["o.md", "newdir2/o.md"])] if rng.random() < 0.4 else []), ["-"])
         inv["stdin"] = b2j(stdin_doc)
     elif form == "err_inplace_stdin_first":
         inv["argv"] = place(["-i"] + (["--nobackup"] if rng.random() < 0.5 else []), ["-", f1])
@@ -529,6 +529,19 @@ def tree_files(root: str) -> dict[str, bytes]:
     return {rel: ent[1] for rel, ent in snap.items() if ent[0] == "f"}
 
 
+def tree_dirs(root: str) -> set[str]:
+    return {rel for rel, ent in simproc.snapshot(root).items() if ent[0] == "d"}
+
+
+def implied_dirs(files: dict[str, bytes]) -> set[str]:
+    out: set[str] = set()
+    for rel in files:
+        parts = rel.split("/")[:-1]
+        for i in range(1, len(parts) + 1):
+            out.add("/".join(parts[:i]))
+    return out
+
+
 _UID = re.compile(r"[0-9a-z]{13}\.partial")
 
 
@@ -576,13 +589,16 @@ def _run_case(case: dict[str, Any], scratch: str, want_trace: bool) -> dict[str,
     hist_log: list[Any] = []
 
     inproc: list[tuple[Any, bytes, dict[str, bytes]]] = []
+    dirs_now: set[str] = tree_dirs(root)
     for idx, inv in enumerate(case["history"]):
+        dirs_before = dirs_now
         form = inv["form"]
         pred = predict(model, inv, M)
         ip = simproc.Interposer(root, [], inv.get("knobs") or {})
         stdin = j2b(inv.get("stdin")) or b""
         res = simproc.run_process(ip, make_fn(inv), stdin, cwd=root, uid_seed=inv.get("uid_seed", 0))
         after = tree_files(root)
+        dirs_now = tree_dirs(root)
         inproc.append((res.exit, res.stdout, after))
         counters["invocations"] += 1
         counters["forms"][form] = counters["forms"].get(form, 0) + 1
@@ -604,12 +620,14 @@ def _run_case(case: dict[str, Any], scratch: str, want_trace: bool) -> dict[str,
         def matches(pr: Pred) -> str | None:
             if pr.exit != "any" and res.exit_class() != pr.exit:
                 return "exit-mismatch"
-            if pr.no_write and (wrote or after != pr.M):
+            if pr.no_write and (wrote or after != pr.M or dirs_now != dirs_before):
                 return "usage-error-wrote"
             if pr.stdout is not None and res.stdout != pr.stdout:
                 return "stdout-mismatch"
             if after != pr.M:
                 return "tree-mismatch"
+            if dirs_now != dirs_before | implied_dirs(pr.M):
+                return "usage-error-wrote" if pr.no_write else "stray-directory"
             return None
 
         what = matches(pred)
